@@ -62,9 +62,14 @@ class StateSpace:
         return (
             state.grid.shape == self.grid_shape
             and state.grid.object_types().issubset(self.object_types)
+            and set(
+                state.grid[position].color
+                for position in state.grid.area.positions()
+            ).issubset(self.colors)
             and state.grid.area.contains(state.agent.position)
             and isinstance(state.agent.orientation, Orientation)
             and type(state.agent.grid_object) in self._agent_object_types
+            and state.agent.grid_object.color in self.colors
         )
 
     @property
